@@ -238,7 +238,7 @@ func same(got align.Alignment, want model) error {
 	if got.Length() != want.Length {
 		return fmt.Errorf("length %d instead of %d", got.Length(), want.Length)
 	}
-	if got.Alphabet() != want.Alphabet {
+	if want.Alphabet >= 0 && got.Alphabet() != want.Alphabet {
 		return fmt.Errorf("detected alphabet %s instead of %s", alphaName(got.Alphabet()), alphaName(want.Alphabet))
 	}
 	return nil
@@ -344,6 +344,9 @@ type rtCase struct {
 	Ali   gen.Ali `json:"ali"`
 	Shape shape   `json:"shape"`
 	Cfg   cfg     `json:"cfg"`
+	// Plan: the chain of public operations through which the object is obtained (empty = fresh
+	// from the constructor); drawn for one case in three
+	Plan gen.Plan `json:"plan"`
 }
 
 func genRT(t *rapid.T) rtCase {
@@ -356,6 +359,9 @@ func genRT(t *rapid.T) rtCase {
 		return c
 	}
 	c.Ali = genAli(t, domOf(c.Cfg), maxLen(), c.Cfg)
+	if rapid.IntRange(0, 2).Draw(t, "provenance") == 0 {
+		c.Plan = gen.DrawPlan(t, c.Ali, present(c.Ali), 3)
+	}
 	return c
 }
 
@@ -365,13 +371,23 @@ func checkRT(c rtCase) (o pbt.Outcome, err error) {
 		return o, nil
 	}
 	full := expand(c.Ali, c.Shape, domOf(c.Cfg))
-	al, want, err := buildModel(full)
+	al, want, usable, err := buildVia(full, c.Plan)
 	if err != nil {
 		return o, err
 	}
 	if want.Alphabet == align.UNKNOWN {
 		o.Skip = true
 		return o, nil
+	}
+	if !usable {
+		o.Class("provenance-unusable")
+	} else if len(c.Plan.Steps) > 0 {
+		o.Class("provenance: object obtained through other operations")
+		for _, k := range c.Plan.Kinds() {
+			o.Class("provenance step: %s", k)
+		}
+	} else {
+		o.Class("provenance: fresh")
 	}
 	got, err := roundTrip(al, want, c.Cfg)
 	if err != nil {
